@@ -189,8 +189,20 @@ def gen_consts():
                     cache[file] = strip_comments(read(file))
                 except OSError as e:
                     raise GenError("cannot read %s: %s" % (file, e))
-            body = fn_body(cache[file], anchor)
-            m = re.search(value, body)
+            try:
+                body = fn_body(cache[file], anchor)
+                m = re.search(value, body)
+            except GenError:
+                m = None
+            if not m:
+                # the same site after reformatting (line breaks / indentation changed): match on the
+                # source with every whitespace run collapsed to one blank
+                flat = re.sub(r"\s+", " ", cache[file])
+                try:
+                    body = fn_body(flat, anchor.replace("^", r"\b"))
+                    m = re.search(value.replace(r"\s*", " ?"), body)
+                except GenError:
+                    m = None
             if not m:
                 raise GenError("site %s: value pattern not found in %s after anchor" % (name, file))
             v = const_expr(m.group(1), {k: values[a] for k, a in env.items()})
